@@ -39,6 +39,8 @@ class Cfg:
         self.break_rules = 0.0    # probability of deliberately breaking a placement rule (expected discards)
         self.unicode_breaks_in_comments = True
         self.leading_comma = True
+        self.inline_breaks = 0.12    # inline single-model targets: a gap becomes a line break (+ indent / inline comment)
+        self.outer_trivia = 0.04     # inline single-model targets: blanks / newline around the model
         self.__dict__.update(kw)
 
 
@@ -642,6 +644,44 @@ def build_target(rnd: Any, target: str, cfg: Optional[Cfg] = None) -> list[list[
         return [chunk]
     if target == 'meta_item':
         return [g.meta_item_line()]
+    if target in INLINE_TARGETS:
+        pieces = _inline_pieces(g, target)
+        pieces = inject_line_breaks(g, pieces)
+        if g.p(g.c.outer_trivia):
+            # trivia around an inline model (accepted by parse, see the C01 known finding)
+            x = g.n(0, 2)
+            if x == 0:
+                pieces = [['INDENT', g.chars(' \t', 1, 3)], *pieces]
+            elif x == 1:
+                pieces = [*pieces, ['WHITESPACE', g.chars(' \t', 1, 3)]]
+            else:
+                pieces = [*pieces, ['_NEWLINE', g.nl()]]
+        return [pieces]
+    raise ValueError(target)
+
+
+INLINE_TARGETS = ['number_expr', 'number_paren_expr', 'number_unary_expr', 'amount', 'tolerance', 'unit_price', 'total_price', 'compound_amount',
+                  'cost_spec', 'unit_cost', 'total_cost']
+
+
+def inject_line_breaks(g: G, pieces: list[Piece]) -> list[Piece]:
+    """Inline models accept line breaks and indentation between their tokens when parsed on their own."""
+    out: list[Piece] = []
+    for i, p in enumerate(pieces):
+        if p[0] == 'WHITESPACE' and 0 < i < len(pieces) - 1 and g.p(g.c.inline_breaks):
+            if g.p(0.3):
+                out.append(['WHITESPACE', g.chars(' \t', 1, 2)])
+            out.append(['_NEWLINE', g.nl()])
+            if g.p(0.2):
+                out.append(['_NEWLINE', g.nl()])
+            if g.p(0.6):
+                out.append(['INDENT', g.chars(' \t', 1, 4)])
+        else:
+            out.append(p)
+    return out
+
+
+def _inline_pieces(g: G, target: str) -> list[Piece]:
     simple = {
         'number_expr': g.number_expr, 'number_add_expr': lambda: g.add_expr(g.n(0, 3)), 'number_mul_expr': lambda: g.mul_expr(g.n(0, 3)),
         'number_paren_expr': lambda: [['LEFT_PAREN', '('], *g.add_expr(g.n(0, 2)), ['RIGHT_PAREN', ')']],
@@ -653,14 +693,12 @@ def build_target(rnd: Any, target: str, cfg: Optional[Cfg] = None) -> list[list[
         'cost_spec': g.cost_spec,
     }
     if target in simple:
-        return [simple[target]()]
-    if target in ('unit_cost', 'total_cost'):
-        for _ in range(50):
-            c = g.cost_spec()
-            if (c[0][0] == 'LEFT_BRACE') == (target == 'unit_cost'):
-                return [c]
-        return [[['LEFT_BRACE', '{'], ['RIGHT_BRACE', '}']]] if target == 'unit_cost' else [[['DBL_LEFT_BRACE', '{{'], ['DBL_RIGHT_BRACE', '}}']]]
-    raise ValueError(target)
+        return simple[target]()
+    for _ in range(50):
+        c = g.cost_spec()
+        if (c[0][0] == 'LEFT_BRACE') == (target == 'unit_cost'):
+            return c
+    return [['LEFT_BRACE', '{'], ['RIGHT_BRACE', '}']] if target == 'unit_cost' else [['DBL_LEFT_BRACE', '{{'], ['DBL_RIGHT_BRACE', '}}']]
 
 
 TARGETS = ['file', 'number_unary_expr', 'number_paren_expr', 'number_expr', 'amount', 'meta_item',
